@@ -1018,7 +1018,8 @@ class AnyBetween(__Class):
         '''
         for c in (start, end):
             if isinstance(c, (str, _pre.Pregex)):
-                if len(str(c).replace("\\", "", 1)) > 1 or len(str(c)) == 0:
+                if len(str(c).replace("\\", "", 1)) > 1 or len(str(c)) == 0 \
+                    or (isinstance(c, str) and len(c) > 1):
                     message = f"Argument \"{c}\" is neither a string nor a token."
                     raise _ex.InvalidArgumentTypeException(message)
             else:
@@ -1066,7 +1067,8 @@ class AnyButBetween(__Class):
         '''
         for c in (start, end):
             if isinstance(c, (str, _pre.Pregex)):
-                if len(str(c).replace("\\", "", 1)) > 1 or len(str(c)) == 0:
+                if len(str(c).replace("\\", "", 1)) > 1 or len(str(c)) == 0 \
+                    or (isinstance(c, str) and len(c) > 1):
                     message = f"Argument \"{c}\" is neither a string nor a token."
                     raise _ex.InvalidArgumentTypeException(message)
             else:
@@ -1113,7 +1115,8 @@ class AnyFrom(__Class):
             raise _ex.NotEnoughArgumentsException(message)
         for c in chars:
             if isinstance(c, (str, _pre.Pregex)):
-                if len(str(c).replace("\\", "", 1)) > 1 or len(str(c)) == 0:
+                if len(str(c).replace("\\", "", 1)) > 1 or len(str(c)) == 0 \
+                    or (isinstance(c, str) and len(c) > 1):
                     message = f"Argument \"{c}\" is neither a string nor a token."
                     raise _ex.InvalidArgumentTypeException(message)
             else:
@@ -1157,7 +1160,8 @@ class AnyButFrom(__Class):
             raise _ex.NotEnoughArgumentsException(message)
         for c in chars:
             if isinstance(c, (str, _pre.Pregex)):
-                if len(str(c).replace("\\", "", 1)) > 1 or len(str(c)) == 0:
+                if len(str(c).replace("\\", "", 1)) > 1 or len(str(c)) == 0 \
+                    or (isinstance(c, str) and len(c) > 1):
                     message = f"Argument \"{c}\" is neither a string nor a token."
                     raise _ex.InvalidArgumentTypeException(message)
             else:
